@@ -13,3 +13,4 @@ import QV.Properties.C21
 import QV.Properties.C22
 import QV.Properties.C17
 import QV.Properties.C31
+import QV.Properties.C10
